@@ -8,6 +8,7 @@ optional config scope around the outermost call and around inner links.  The rai
 original object `e`; the oracle compares what the caller catches (`e2`) with `e`.
 """
 import builtins
+import inspect
 import sys
 import types
 
@@ -48,7 +49,12 @@ RULE = ('sweep: every BaseException subclass exported by builtins (69 names on 3
         'case per builtin expression and per pair in the sweeps): before the main raise an '
         'exception of a DISTINCT class with the same __module__ and __qualname__ (the same '
         'generated source exec\'ed in a second namespace; for builtins a subclass with the '
-        'identical name) is raised through a configurable and caught. Non-trivial = '
+        'identical name) is raised through a configurable and caught. Catch links (generated, '
+        'and two per builtin expression in the sweep): an intermediate configurable body catches '
+        'the exception coming from below, changes args / type-specific C-level fields '
+        '(filename, strerror, value, name, path, reason, lineno, code, obj) / __slots__ values / '
+        'a __dict__ attribute on the caught object and re-raises it with bare `raise` or `raise '
+        'exc`; the recorder runs again right before the re-raise. Non-trivial = '
         'the original has a public data attribute besides args, or its constructor has required '
         'arguments, or >=2 configurables are on the stack. Distinct = distinct case JSON.')
 ASSUMPTIONS = [
@@ -64,6 +70,10 @@ ASSUMPTIONS = [
     'gin.current_scope_str() occur in str(e2) after the prefix str(e); nothing else of the text '
     'is compared, further "In call to configurable" lines for outer configurables are accepted',
     'only the innermost configurable (the one whose body raised) is required to be named',
+    'when an intermediate configurable body catches, changes and re-raises the exception, the '
+    'object as it leaves that body (message, public data, scope and name of that configurable) '
+    'is the original for the configurables further out, and that body is itself a caller: what '
+    'it caught is compared with the previous reference in the same way',
     '"catchable by the same except clauses" is read in both directions for the twin class only: '
     'the twin is unrelated to (or a strict subclass of) the raised class, so `except Twin` does '
     'not catch the original and must not catch the object that reaches the caller',
@@ -79,9 +89,10 @@ ASSUMPTIONS = [
 ]
 FLOORS = {
     'nontrivial': 0.5,
-    'scope:active': 0.3,
-    'link:ref': 0.15,
-    'depth>=3': 0.2,
+    # chain-shape floors are relative to the cases that vary the chain (all but mi-ordered-pairs)
+    'scope:active': (0.3, 'chain:varied'),
+    'link:ref': (0.15, 'chain:varied'),
+    'depth>=3': (0.2, 'chain:varied'),
     'passthrough': 0.02,
     'family:group': 0.01,
     'kind:user': (0.5, 'origin:gen'),
@@ -95,6 +106,8 @@ FLOORS = {
     'user:group-subclass': (0.03, 'user:generated'),
     'user:mi-layout-base-not-first': (0.03, 'user:generated'),
     'twin:first': 0.03,
+    'catch:reraised': 0.05,
+    'catch:mutated-outside-dict': 0.04,
 }
 TECHNIQUE = ('bounded exhaustive sweep over the builtin exception hierarchy x raise site x depth x '
              'scope, plus Hypothesis-generated user exception classes rendered to source, with a '
@@ -404,8 +417,17 @@ def render_user(spec):
 # ----------------------------------------------------------------------------- chains
 SCOPES = ['', 'zsa', 'zsa/zsb']
 LINK_SCOPES = ['', '', 'zm']
-_link = st.builds(lambda k, s: {'kind': k, 'scope': s}, st.sampled_from(['call', 'call', 'ref']),
-                  st.sampled_from(LINK_SCOPES))
+MUTATIONS = ['args', 'field', 'slot', 'dict']
+_plain_link = st.builds(lambda k, s: {'kind': k, 'scope': s},
+                        st.sampled_from(['call', 'call', 'ref']), st.sampled_from(LINK_SCOPES))
+# 'catch': a call link whose body catches what comes from below, changes public state of the
+# exception object and re-raises it (bare `raise` or `raise exc`)
+_catch_link = st.builds(
+    lambda s, m, r: {'kind': 'catch', 'scope': s, 'mut': sorted(m), 'reraise': r},
+    st.sampled_from(LINK_SCOPES),
+    st.lists(st.sampled_from(MUTATIONS), min_size=0, max_size=4, unique=True),
+    st.sampled_from(['bare', 'bare', 'named']))
+_link = st.one_of(_plain_link, _plain_link, _plain_link, _catch_link)
 
 
 def _chain(draw):
@@ -457,6 +479,16 @@ def sweep_builtins(tier):
                 'how': 'register' if site == 'method' else 'configurable',
                 'mhow': 'register', 'links': links, 'inter': 'fn', 'scope': scope,
                 'cause': False, 'origin': 'sweep'})
+      # an intermediate body catches the (already augmented) exception, changes args / a typed
+      # field / a __dict__ attribute and re-raises it: depth 2 (bare raise) and depth 3 (raise e)
+      for links in ([{'kind': 'catch', 'scope': '', 'mut': ['args', 'dict', 'field'],
+                      'reraise': 'bare'}],
+                    [{'kind': 'catch', 'scope': '', 'mut': ['field'], 'reraise': 'named'},
+                     {'kind': 'call', 'scope': ''}]):
+        cases.append({'exc': {'builtin': name, 'expr': expr}, 'site': 'fn',
+                      'how': 'configurable', 'mhow': 'register', 'links': links, 'inter': 'fn',
+                      'scope': 'zsa' if len(links) == 2 else '', 'cause': False,
+                      'origin': 'sweep'})
       # 'twin first': an equally named distinct class crosses a configurable before this one
       cases.append({'exc': {'builtin': name, 'expr': expr}, 'site': 'fn', 'how': 'configurable',
                     'mhow': 'register', 'links': [], 'inter': 'fn', 'scope': '', 'cause': False,
@@ -485,7 +517,7 @@ def sweep_mi_pairs(tier):
         cases.append({'exc': plain_user_spec(pair, argv), 'site': 'fn', 'how': 'configurable',
                       'mhow': 'register', 'links': [{'kind': 'call', 'scope': ''}] * (depth - 1),
                       'inter': 'fn', 'scope': scope, 'cause': False, 'twin': twin,
-                      'origin': 'sweep'})
+                      'focus': 'class', 'origin': 'sweep'})
   return cases, True
 
 
@@ -544,10 +576,14 @@ def build_chain(case):
   bindings = []
   for i in range(last - 1, -1, -1):
     link = links[i]
-    if link['kind'] == 'call':
+    if link['kind'] in ('call', 'catch'):
       ret = [f'return {invoke[i + 1]}']
       if link['scope']:
         ret = [f"with gin.config_scope('{link['scope']}'):", '  ' + ret[0]]
+      if link['kind'] == 'catch':
+        ret = (['try:'] + ['  ' + l for l in ret] + ['except BaseException as exc:',
+               f"  _caught(exc, {i}, {sorted(link.get('mut', []))!r}, 'zq_k{i}')",
+               '  raise exc' if link.get('reraise') == 'named' else '  raise'])
     else:
       ret = [f'return {viaref[i + 1]}']
       sc = link['scope'] + '/' if link['scope'] else ''
@@ -581,6 +617,42 @@ def public_data(e):
       continue
     res[name] = v
   return res
+
+
+FIELD_MUTATIONS = [('filename', '/enriched/file'), ('strerror', 'enriched strerror'),
+                   ('value', ('enriched', 'value')), ('name', 'enriched_name'),
+                   ('path', '/enriched/path'), ('reason', 'enriched reason'), ('lineno', 77),
+                   ('code', 9), ('obj', ('enriched', 'obj'))]
+_C_FIELD = (types.MemberDescriptorType, types.GetSetDescriptorType)
+
+
+def mutate(e, kinds, level):
+  """Changes public state of `e` the way an enriching handler would; returns what was changed."""
+  applied = set()
+
+  def stored_outside_dict(name):
+    return isinstance(inspect.getattr_static(type(e), name, None), _C_FIELD)
+
+  if 'args' in kinds:
+    e.args = tuple(e.args) + (f'added-by-level-{level}',)
+    applied.add('args')
+  if 'field' in kinds:
+    for name, value in FIELD_MUTATIONS:
+      if stored_outside_dict(name):
+        try:
+          setattr(e, name, value)
+          applied.add('field')
+        except (AttributeError, TypeError):
+          pass       # read-only on this class
+  if 'slot' in kinds:
+    for name in ('sa', 'sb'):
+      if stored_outside_dict(name):
+        setattr(e, name, f'enriched-{name}-by-level-{level}')
+        applied.add('slot')
+  if 'dict' in kinds:
+    e.enriched = ['by-level', level]
+    applied.add('dict')
+  return sorted(applied)
 
 
 def caught_by(exc, cls):
@@ -664,6 +736,17 @@ def check_case(case):
   mod.HOLD = {'e': None, 'scope': None, 'cause': LookupError('the cause')}
   mod.gin = gin
   mod._public_data = public_data  # pylint: disable=protected-access
+  levels = []      # one record per catching intermediate body, innermost first
+
+  def _caught(obj, level, kinds, name):
+    # what this body (the caller of the configurables below) caught, then what leaves it: the
+    # exception object as re-raised is "the original" for the configurables further out
+    rec = {'seen': obj, 'seen_str': str(obj), 'seen_data': public_data(obj), 'name': name}
+    rec['applied'] = mutate(obj, kinds, level)
+    rec.update(scope=gin.current_scope_str(), str=str(obj), data=public_data(obj))
+    levels.append(rec)
+
+  mod._caught = _caught  # pylint: disable=protected-access
   labels = set()
 
   # (1) the exception class and its factory -------------------------------------------------
@@ -739,57 +822,68 @@ def check_case(case):
   orig = mod.HOLD['data']
 
   # (4) oracle ------------------------------------------------------------------------------
-  if not isinstance(e, Exception):
-    require(e2 is e, 'non-Exception-not-passed-through',
-            lambda: f'raised {short(e)} ({cls.__name__}), caught {short(e2)} of '
-                    f'{type(e2).__mro__}\n{describe()}')
-    labels.add('passthrough')
-  else:
-    require(isinstance(e2, cls) and cls in type(e2).__mro__, 'not-same-class',
-            lambda: f'raised {cls.__name__} {short(e)}; caught {type(e2).__name__} {short(e2)} '
-                    f'with mro {type(e2).__mro__}\n{describe()}')
-    labels.add('augmented' if e2 is not e else 'same-object')
-    if twin_cls is not None:
-      # a clause that does not catch the original must not catch the caught object either
-      require(not isinstance(e2, twin_cls) and twin_cls not in type(e2).__mro__,
-              'caught-by-unrelated-class',
-              lambda: f'raised {short(e)} of {cls!r} (id {id(cls):#x}); the caught object is an '
-                      f'instance of the unrelated, equally named class {twin_cls!r} (id '
-                      f'{id(twin_cls):#x}) that was raised earlier; mro {type(e2).__mro__}\n'
+  def compare(ref, got, got_str, read, where):
+    """`got` (caught at `where`) against the reference ref = (message, data, scope, name)."""
+    ref_str, ref_data, ref_scope, ref_name = ref
+    if not isinstance(e, Exception):
+      require(got is e, 'non-Exception-not-passed-through',
+              lambda: f'{where}: raised {short(e)} ({cls.__name__}), caught {short(got)} of '
+                      f'{type(got).__mro__}\n{describe()}')
+      require(got_str == ref_str, 'passthrough-message-changed',
+              lambda: f'{where}: {got_str!r} != {ref_str!r}')
+    else:
+      require(isinstance(got, cls) and cls in type(got).__mro__, 'not-same-class',
+              lambda: f'{where}: raised {cls.__name__} {short(e)}; caught {type(got).__name__} '
+                      f'{short(got)} with mro {type(got).__mro__}\n{describe()}')
+      if twin_cls is not None:
+        # a clause that does not catch the original must not catch the caught object either
+        require(not isinstance(got, twin_cls) and twin_cls not in type(got).__mro__,
+                'caught-by-unrelated-class',
+                lambda: f'{where}: raised {short(e)} of {cls!r} (id {id(cls):#x}); the caught '
+                        f'object is an instance of the unrelated, equally named class '
+                        f'{twin_cls!r} (id {id(twin_cls):#x}) that was raised earlier; mro '
+                        f'{type(got).__mro__}\n{describe()}')
+      require(got_str.startswith(ref_str), 'message-prefix',
+              lambda: f'{where}: str(original)={ref_str!r}; str(caught)={got_str!r}\n'
                       f'{describe()}')
+      ext = got_str[len(ref_str):]
+      require(ref_name in ext, 'configurable-not-named',
+              lambda: f'{where}: extension {ext!r} does not name {ref_name!r}\n{describe()}')
+      if ref_scope:
+        require(ref_scope in ext, 'scope-not-named',
+                lambda: f'{where}: extension {ext!r} does not name the active scope '
+                        f'{ref_scope!r}\n{describe()}')
+    for name in sorted(ref_data):
+      v = ref_data[name]
+      try:
+        v2 = read(name)
+      except Exception as ex:  # pylint: disable=broad-except
+        raise Violation('attribute-unreadable',
+                        f'{where}: {cls.__name__}.{name} is {short(v)} on the original, reading '
+                        f'it on the caught object raises {type(ex).__name__}: {ex}\n{describe()}')
+      require(v2 is v or v2 == v, 'attribute-differs',
+              lambda: f'{where}: {cls.__name__}.{name}: original {short(v)}, caught {short(v2)}'
+                      f'\n{describe()}')
 
-  # public data attributes
-  for name in sorted(orig):
-    v = orig[name]
-    try:
-      v2 = getattr(e2, name)
-    except Exception as ex:  # pylint: disable=broad-except
-      raise Violation('attribute-unreadable',
-                      f'{cls.__name__}.{name} is {short(v)} on the original, reading it on the '
-                      f'caught object raises {type(ex).__name__}: {ex}\n{describe()}')
-    require(v2 is v or v2 == v, 'attribute-differs',
-            lambda: f'{cls.__name__}.{name}: original {short(v)}, caught {short(v2)}\n'
-                    f'{describe()}')
+  # every catching intermediate body is a caller of the configurables below it; what it re-raises
+  # is the original for the configurables further out
+  ref = (str_e, orig, scope, inner)
+  for rec in levels:
+    compare(ref, rec['seen'], rec['seen_str'], rec['seen_data'].__getitem__,
+            f"in the body of {rec['name']}")
+    ref = (rec['str'], rec['data'], rec['scope'], rec['name'])
+  scope = ref[2]
+  compare(ref, e2, str(e2), lambda name: getattr(e2, name), 'at the caller')
+  if isinstance(e, Exception):
+    labels.add('augmented' if e2 is not e else 'same-object')
+  else:
+    labels.add('passthrough')
 
   # traceback: frame and line of the original raise
   entries = tb_entries(e2.__traceback__)
   require((PROBE_FILE, code_name, raise_line) in entries, 'traceback-lost',
           lambda: f'expected frame {(PROBE_FILE, code_name, raise_line)} in {entries}\n'
                   f'{describe()}')
-
-  # message
-  s2 = str(e2)
-  if isinstance(e, Exception):
-    require(s2.startswith(str_e), 'message-prefix',
-            lambda: f'str(original)={str_e!r}; str(caught)={s2!r}\n{describe()}')
-    ext = s2[len(str_e):]
-    require(inner in ext, 'configurable-not-named',
-            lambda: f'extension {ext!r} does not name {inner!r}\n{describe()}')
-    if scope:
-      require(scope in ext, 'scope-not-named',
-              lambda: f'extension {ext!r} does not name the active scope {scope!r}\n{describe()}')
-  else:
-    require(s2 == str_e, 'passthrough-message-changed', lambda: f'{s2!r} != {str_e!r}')
 
   # the same except clauses (last: re-raising touches __traceback__/__context__)
   if isinstance(e, BaseExceptionGroup) and isinstance(e, Exception):
@@ -816,6 +910,8 @@ def check_case(case):
         issubclass(cls, UnicodeError) and cls is not UnicodeError)
   nontrivial = bool(typed) or required_args or n_conf >= 2
   labels.add('origin:' + case.get('origin', 'replay'))
+  if case.get('focus') != 'class':
+    labels.add('chain:varied')
   labels.add('family:' + family(cls))
   labels.add('site:' + case['site'])
   labels.add('how:' + case['how'])
@@ -831,6 +927,15 @@ def check_case(case):
     labels.add('link:' + l['kind'])
     if l['scope']:
       labels.add('link:scoped-' + l['kind'])
+  for rec in levels:
+    labels.add('catch:reraised')
+    for a in rec['applied']:
+      labels.add('catch:mutated-' + a)
+    if set(rec['applied']) - {'dict'}:
+      labels.add('catch:mutated-outside-dict')
+  for l in case['links']:
+    if l['kind'] == 'catch':
+      labels.add('catch:' + l.get('reraise', 'bare'))
   if case['links'] and case['links'][-1]['kind'] == 'ref':
     labels.add('raised-while-evaluating-reference')
   if case['inter'] == 'cls' and case['links']:
